@@ -156,6 +156,11 @@ def gen_case(rng, tier, stream=None):
             "check_zero": rng.random() < 0.4, "prefer_einsum": rng.random() < 0.3,
             "order_seed": rng.choice([None, rng.randrange(1 << 30)]),
             "implementation": rng.choice([None, None, "autoray"]), "stream": stream}
+    if rng.random() < 0.35:
+        # earlier uses of the same tree object with other (strip_exponent, check_zero) flags
+        cz_ = case["check_zero"]
+        case["warm"] = rng.choice([[[True, not cz_]], [[False, False]], [[True, not cz_], [False, False]],
+                                   [[False, False], [True, not cz_]]])
     if stream == "zero-slice":
         # zero out one tensor on one value of a sliced index that it carries (if any tensor does)
         cands = [(ti, ix) for ti, t in enumerate(net.inputs) for ix in sliced if ix in t and net.sizes[ix] >= 2]
@@ -424,6 +429,14 @@ def check_case(ctx, drv, case, corr=True):
     kw = dict(strip_exponent=True, check_zero=cz, prefer_einsum=case["prefer_einsum"], order=order_fn(case))
     if case.get("implementation"):
         kw["implementation"] = case["implementation"]
+    if case.get("warm"):
+        # the same tree object has been used before with *other* run-time flags (on harmless all-ones arrays):
+        # what it compiled or remembered then must not leak into the judged call
+        ones = [np.ones_like(np.asarray(a, dtype=float)) for a in farrays]
+        for w in case["warm"]:
+            kw0 = dict(kw, strip_exponent=w[0], check_zero=w[1])
+            call_real(lambda: tree.contract(ones, **kw0))
+        ctx.count("same-tree-used-before-with-other-flags")
     st, res = call_real(lambda: tree.contract(farrays, **kw))
     exact = exact_arrays(farrays)
     ref, refabs = reference(net, exact)
